@@ -125,3 +125,44 @@ package metadata
 //@     ghostset ghost(sm, "smiHeld") = 1
 //@   ensures [a-failed-load-never-counts-as-loaded] implies(result != nil, !sm.loadedSearchMetadata)
 //@ end
+
+// C18 (arbitrary bytes fed to an on-disk decoder never crash the server): the
+// column micro-index files (.cmi) have no checksum.  The range-index decoder is
+// panic-free for EVERY content; a bloom entry reaches the bloom library (which
+// allocates by the bit count stored in the entry) only when that bit count fits
+// the bytes that are there.
+//@ func hasBytes
+//@   props C18
+//@   pure
+//@   safe
+//@   ensures result == (uint64(off) + uint64(n) <= uint64(len(buf)))
+//@ end
+//@ spec be64(b []byte) uint64 = uint64(b[0])<<56 | uint64(b[1])<<48 | uint64(b[2])<<40 | uint64(b[3])<<32 | uint64(b[4])<<24 | uint64(b[5])<<16 | uint64(b[6])<<8 | uint64(b[7])
+//@ func bloomFitsBuffer
+//@   props C18
+//@   pure
+//@   safe
+//@   ensures [fits-means-the-stored-bit-count-is-covered-by-the-bytes] implies(result, len(buf) >= 24 && be64(buf[16:24]) <= uint64(len(buf) - 24) * 8)
+//@ end
+//@ func rangeIndexToBytes
+//@   props C18
+//@   requires len(bbBlockRI) <= 4294967295 && uint64(byteCounter) + 16 <= uint64(len(bbBlockRI))
+//@   pure
+//@   safe
+//@   ensures [an-unknown-number-type-yields-no-entry] (result0 == nil) == (blkRangeNumType != sutils.RNT_UNSIGNED_INT && blkRangeNumType != sutils.RNT_SIGNED_INT && blkRangeNumType != sutils.RNT_FLOAT64)
+//@   ensures [a-decoded-entry-advances-by-its-16-bytes] implies(result0 != nil, result1 == byteCounter + 16)
+//@ end
+//@ func readRangeIndexFromByteArray
+//@   props C18
+//@   requires len(bbRI) <= 4294967295
+//@   safe
+//@   loop 1:
+//@     invariant byteCounter <= uint32(len(bbRI))
+//@ end
+//@ func getCmi
+//@   props C18
+//@   requires len(cmbuf) <= 4294967295
+//@   safe
+//@   site call blkBloom.ReadFrom #1:
+//@     assert [the-bloom-library-only-sees-an-entry-whose-bit-count-fits] len(cmbuf) >= 25 && be64(cmbuf[17:25]) <= uint64(len(cmbuf) - 25) * 8
+//@ end
